@@ -296,6 +296,27 @@ pub fn suite_qualmap(ctx: &Ctx, thorough: bool) {
         }
         if states > if thorough { 200_000 } else { 20_000 } { break; }
     }
+    // ONE reused buffer holding one key after another (same address, same length): a verdict must depend on the text only
+    {
+        let ks = ["arch", "a ch", "ARCH", "arcH", "ar.h", "a=ch", "os-x", "OS_X", "o s="];
+        for k1 in ks { for k2 in ks {
+            ctx.eval();
+            let mut buf = String::with_capacity(16);
+            let mut q = Qualifiers::default();
+            let mut m = Model::new();
+            for (round, k) in [k1, k2, k1].iter().enumerate() {
+                buf.clear(); buf.push_str(k);
+                let val = format!("v{round}");
+                let r = q.insert(buf.as_str(), val.as_str()).map(|_| ());
+                if valid(k) { m.insert(k.to_ascii_lowercase(), val.clone()); }
+                if r.is_ok() != valid(k) { ctx.violate("C11.insert", "invalid key refused with InvalidQualifier", json!({"buffer_held": [k1, k2, k1], "round": round}), format!("{r:?}"), format!("valid={}", valid(k))); }
+                let got = q.get(buf.as_str()).map(str::to_owned);
+                let want = if valid(k) { m.get(&k.to_ascii_lowercase()).cloned() } else { None };
+                if got != want { ctx.violate("C11.get", "lookup equals the reference, independent of key case; invalid keys are absent", json!({"buffer_held": [k1, k2, k1], "round": round}), format!("{got:?}"), format!("{want:?}")); }
+            }
+            check_rep(ctx, &q, &m, "keys from one reused buffer");
+        } }
+    }
     ctx.sample(json!({"reachable_contents": states}));
     ctx.sample(json!([["a", "x"], ["a.b", ""], ["b", "y"]]));
 }
@@ -808,6 +829,20 @@ pub fn suite_shapes(ctx: &Ctx, thorough: bool) {
         }
     } } } }
     let _ = thorough;
+    // borrowed type strings that share their start address (prefixes of one buffer), shortest first and longest first
+    for base in ["deb/curl", "Npm pkg", "a.b+c d", "AbC"] {
+        let mut lens: Vec<usize> = (0..=base.len()).collect();
+        for pass in 0..2 {
+            if pass == 1 { lens.reverse(); }
+            for &n in &lens {
+                ctx.eval();
+                let t = &base[..n];
+                let a = guarded(|| GenericPurlBuilder::new(t.to_owned(), "n").build().map(|p| p.to_string()).map_err(|e| format!("{e:?}")));
+                let b = guarded(|| GenericPurlBuilder::new(Cow::Borrowed(t), "n").build().map(|p| p.to_string()).map_err(|e| format!("{e:?}")));
+                if a != b { ctx.violate("C13.builder", "same acceptance / error / type / accessors / string for every built-in type parameter", json!({"type": t, "borrowed_prefix_of": base, "shape": "Cow::Borrowed"}), format!("{b:?}"), format!("{a:?}")); }
+            }
+        }
+    }
     ctx.sample(json!({"type": "Ab.C+d-1", "shapes": ["String", "Cow::Borrowed", "Cow::Owned", "SmallString"]}));
     let _ = (PackageError::UnsupportedType, PurlField::Name);
 }
